@@ -50,6 +50,8 @@ type rawFinding struct {
 type Witness struct {
 	Case     Case              `json:"case"`
 	Oracle   string            `json:"oracle"`
+	Features string            `json:"class_features,omitempty"`
+	Needs    string            `json:"leak_needs,omitempty"`
 	Region   int               `json:"region_label"`
 	History  []string          `json:"history"`
 	Diff     *leafDiff         `json:"leaf_diff,omitempty"`
@@ -273,7 +275,7 @@ func evalCase(r *mon.Run, d account.AccountDatabase, c Case, ci int, stats bool)
 	}
 	for i := range out {
 		f := &out[i]
-		_, cls := classify(d, f.hist, f.addr, f.global, false, f.label)
+		_, cls, _ := classify(d, f.hist, f.addr, f.global, false, f.label)
 		// families of the reverted operations aimed at the account (coarse, pre-minimisation)
 		fams := map[string]bool{}
 		if s, e, ok := regionBounds(f.hist, f.label); ok {
@@ -443,7 +445,8 @@ func reduceDepth(r *mon.Run, d account.AccountDatabase, c Case, f rawFinding, bu
 	if !fm.IR {
 		suffix += ":commit-only"
 	}
-	cls, detail := classify(d, m, f.addr, f.global, f.oracle == "accessor", f.label)
+	cls, detail, trigger := classify(d, m, f.addr, f.global, f.oracle == "accessor", f.label)
+	w.Features = cls
 	hist := strings.Join(trim(w.History), "; ")
 	switch f.oracle {
 	case "twin", "twin-nodiff", "twin-panic":
@@ -470,8 +473,42 @@ func reduceDepth(r *mon.Run, d account.AccountDatabase, c Case, f rawFinding, bu
 		if f.label == 0 {
 			without = "without its reverted regions"
 		}
-		r.Violation("C04:twin-root:"+cls+":"+kind+suffix,
-			fmt.Sprintf("[%s] root after the history %v differs from the root of the same history %s: %s (account kind before the region: %s)", c.Mode, hist, without, what, detail), w)
+		// class = which quirk(s) of the code base the leak depends on
+		differs := func(hh []Op, ff finalMode) bool {
+			ok := true // a probe that cannot be evaluated does not explain anything
+			safe(func() bool {
+				th, valid := twinOf(hh, f.label)
+				if !valid {
+					return false
+				}
+				if p, _ := firstOutOfScopePanic(d, hh); p >= 0 {
+					return false
+				}
+				res := twinCheck(d, hh, th, ff)
+				if f.oracle == "twin" {
+					ok = false
+					for _, df := range res.diffs {
+						if df.Addr == f.addr {
+							ok = true
+						}
+					}
+					if res.twinPanic != "" {
+						ok = true
+					}
+				} else {
+					ok = res.mismatch()
+				}
+				return true
+			})
+			return ok
+		}
+		sig := "C04:twin-root:unexplained:" + cls + ":" + kind + suffix
+		if ing, ok := needs(m, fm, differs); ok {
+			sig = "C04:twin-root:needs-" + ing + ":" + trigger + ":" + kind
+			w.Needs = ing
+		}
+		r.Violation(sig,
+			fmt.Sprintf("[%s] root after the history %v differs from the root of the same history %s: %s (account kind before the region: %s; features: %s)", c.Mode, hist, without, what, detail, cls+suffix), w)
 	case "accessor":
 		w.Accessor = f.item.label()
 		mm, _ := accessorCheck(d, m)
@@ -480,7 +517,7 @@ func reduceDepth(r *mon.Run, d account.AccountDatabase, c Case, f rawFinding, bu
 				w.Was, w.Now = x.Was, x.Now
 			}
 		}
-		r.Violation("C04:accessor:"+f.item.Acc+":"+cls,
+		r.Violation("C04:accessor:"+f.item.Acc+":"+trigger,
 			fmt.Sprintf("[%s] %s answered %q when the snapshot was taken and %q after reverting to it; history %v (account kind before the region: %s)", c.Mode, w.Accessor, w.Was, w.Now, hist, detail), w)
 	case "stale":
 		r.Violation("C04:revert:stale-revision-accepted",
